@@ -48,8 +48,12 @@ def heat(dgm1, dgm2, sigma=0.4):
         heat kernel distance between dgm1 and dgm2
 
     """
+    # the squared distance is non-negative in exact arithmetic; rounding can make it slightly negative
     return np.sqrt(
-        evalHeatKernel(dgm1, dgm1, sigma)
-        + evalHeatKernel(dgm2, dgm2, sigma)
-        - 2 * evalHeatKernel(dgm1, dgm2, sigma)
+        np.maximum(
+            evalHeatKernel(dgm1, dgm1, sigma)
+            + evalHeatKernel(dgm2, dgm2, sigma)
+            - 2 * evalHeatKernel(dgm1, dgm2, sigma),
+            0,
+        )
     )
